@@ -18,6 +18,11 @@
 //            +32 = the communicator has the REVERSED rank order of MPI_COMM_WORLD (MPI_Comm_split with key P-1-rank)
 //            +64 = phases 0-2 run on a COPY of the built BufferedCommunicator built from a COPY of the Interface (both leaked: the
 //                  classes have no deep copy; the originals stay alive), phases 5/6 on the original
+//            +128 = the Interface used for the communication was constructed with Interface(OTHER), OTHER = the communicator over the same
+//                   processes with the opposite rank order (object history x communicator, round 6)
+//            +256 = that Interface object was built before from RemoteIndices living on OTHER (AllSet/AllSet), then free()d
+//            +512 = the earlier life of the BufferedCommunicator (mode +4/+8) and a forced earlier build of the DatatypeCommunicator
+//                   happened on OTHER (interface / remote indices built on OTHER)
 //            +2 = afterwards also a DatatypeCommunicator on the same remote indices and flag sets: phase 3 forward(), 4 backward()
 //                 (output fields P3[D:.. T:..] P4[D:.. T:..]; copies only; not modelled, judged by the spec alone)
 //     seed : schedule seed for harness/common/pmpi_sched.c (0 = no perturbation)
@@ -32,6 +37,8 @@
 //   SD[b]                                 1 if a default-constructed Selection is empty (begin()==end())
 //   EQ[x/y/z/w/v]                         Interface::operator==: same flags (Interface(MPI_Comm) ctor) / swapped flags / != is the negation /
 //                                         operator<< prints interfaces() / after free() and build() with swapped flags equal to the swapped one
+//   CM[a/b]                               Interface::communicator() is (MPI_IDENT) the communicator of the RemoteIndices of the last build():
+//                                         the Interface of the communication / the Interface(OTHER) of the EQ stream after build and after free()+build
 //   CP[b]                                 copy-constructed and copy-assigned Interface equal the original (==, !=, communicator())
 //   ST[e/i/n]                             self tests: enumset combine() and operator<< / InterfaceInformation members / build() on
 //                                         remote indices that are not in sync throws RemoteIndicesStateError
@@ -154,14 +161,14 @@ template<class F> struct Disp<NFS, F> { static void go(int, F&) {} };
 struct Ent { int g, l, a, pub; };
 struct RankSets { std::vector<Ent> S, T; int capS, capT; };
 struct Case {
-  int P, two, ign, src, dst, mode, pol, rebuild, dt, cgs, sep, tc, al2, rev, cop; unsigned long long seed; int NG; std::vector<int> sz; std::vector<RankSets> rs;
+  int P, two, ign, src, dst, mode, pol, rebuild, dt, cgs, sep, tc, al2, rev, cop, ictor, ipre, opre; unsigned long long seed; int NG; std::vector<int> sz; std::vector<RankSets> rs;
 };
 static bool parse(const std::string& line, Case& c)
 {
   std::istringstream is(line);
   if (!(is >> c.P >> c.two >> c.ign >> c.src >> c.dst >> c.mode >> c.pol >> c.seed >> c.NG)) return false;
   if (c.P < 1 || c.P > 8 || c.NG < 0 || c.NG > 64) return false;
-  c.dt = (c.pol / 2) % 2; c.cgs = (c.pol / 4) % 2; c.sep = (c.pol / 8) % 2; c.al2 = (c.pol / 16) % 2; c.rev = (c.pol / 32) % 2; c.cop = (c.pol / 64) % 2; c.pol %= 2;
+  c.dt = (c.pol / 2) % 2; c.cgs = (c.pol / 4) % 2; c.sep = (c.pol / 8) % 2; c.al2 = (c.pol / 16) % 2; c.rev = (c.pol / 32) % 2; c.cop = (c.pol / 64) % 2; c.ictor = (c.pol / 128) % 2; c.ipre = (c.pol / 256) % 2; c.opre = (c.pol / 512) % 2; c.pol %= 2;
   c.rebuild = c.mode / 4; c.mode %= 4;
   c.sz.resize(c.NG); for (auto& x : c.sz) is >> x;
   c.rs.resize(c.P);
@@ -287,7 +294,7 @@ struct BuildDT {
   template<class S> void run() { Inner<S> in{ri, dc, s, t}; Disp<0, Inner<S> >::go(dstid, in); }
 };
 template<class Data>
-static void dt_phases(const Case& c, int rank, const RI& ri, std::ostream& os)
+static void dt_phases(const Case& c, int rank, const RI& ri, const RI* rio, std::ostream& os)
 {
   const RankSets& r = c.rs[rank];
   std::vector<int> szS, szT;
@@ -296,7 +303,9 @@ static void dt_phases(const Case& c, int rank, const RI& ri, std::ostream& os)
   retag(src, 3, rank, 0, szS);
   if (c.tc) retag(dstc, 3, rank, 1, szT);
   Dune::DatatypeCommunicator<PIS> dc;
-  if (c.seed % 2)                    // built before for all attributes: build() has to free the first set of datatypes/requests
+  if (c.opre && rio)                 // built before from remote indices on the OTHER communicator (requests on the other communicator)
+    dc.build(*rio, Dune::AllSet<Attr>(), src, Dune::AllSet<Attr>(), c.tc ? dstc : src);
+  else if (c.seed % 2)               // built before for all attributes: build() has to free the first set of datatypes/requests
     dc.build(ri, Dune::AllSet<Attr>(), src, Dune::AllSet<Attr>(), c.tc ? dstc : src);
   g_hidx.clear();
   BuildDT<Data> b{&ri, &dc, &src, c.tc ? &dstc : &src, c.dst};
@@ -368,7 +377,13 @@ static void fill_set(PIS& is, const std::vector<Ent>& es)
   is.endResize();
 }
 
-static std::string run_case(const Case& c, int rank, MPI_Comm comm)
+static bool same_comm(MPI_Comm a, MPI_Comm b)
+{
+  if (a == MPI_COMM_NULL || b == MPI_COMM_NULL) return a == b;
+  int r = MPI_UNEQUAL; MPI_Comm_compare(a, b, &r); return r == MPI_IDENT;
+}
+
+static std::string run_case(const Case& c, int rank, MPI_Comm comm, MPI_Comm other)
 {
   std::ostringstream os;
   const RankSets& r = c.rs[rank];
@@ -394,7 +409,12 @@ static std::string run_case(const Case& c, int rank, MPI_Comm comm)
     }
   }
   os << "]";
-  Dune::Interface inf;
+  // the same index sets seen through the OTHER communicator (same processes, opposite rank order): earlier lives of the objects
+  RI* rio = 0;
+  if (c.ipre || c.opre) { rio = new RI(S, TT, other); if (c.ign) rio->rebuild<true>(); else rio->rebuild<false>(); }
+  Dune::Interface inf_default, inf_other(other);
+  Dune::Interface& inf = c.ictor ? inf_other : inf_default;
+  if (c.ipre) { inf.build(*rio, Dune::AllSet<Attr>(), Dune::AllSet<Attr>()); inf.free(); }
   BuildIf bi{&ri, &inf, c.dst};
   Disp<0, BuildIf>::go(c.src, bi);
   os << " IF[";
@@ -414,7 +434,7 @@ static std::string run_case(const Case& c, int rank, MPI_Comm comm)
   { Sel s{&TT, &S, &os, &agree, &defempty}; Disp<0, Sel>::go(c.dst, s); }
   os << "/" << (agree ? 1 : 0) << "] SD[" << (defempty ? 1 : 0) << "]";
   {   // Interface equality, printing, free() + build()
-    Dune::Interface inf2(comm), inf3;
+    Dune::Interface inf2(other), inf3;
     BuildIf b2{&ri, &inf2, c.dst}; Disp<0, BuildIf>::go(c.src, b2);
     BuildIf b3{&ri, &inf3, c.src}; Disp<0, BuildIf>::go(c.dst, b3);        // source and target flag sets exchanged
     bool x = (inf == inf2) && !(inf != inf2) && (inf == inf) && !(inf != inf);
@@ -429,13 +449,16 @@ static std::string run_case(const Case& c, int rank, MPI_Comm comm)
       ex << "] size=" << p->second.second.size() << "\n";
     }
     bool w = pr.str() == ex.str();
+    bool cmb = same_comm(inf2.communicator(), ri.communicator());
     inf2.free();
     BuildIf b4{&ri, &inf2, c.src}; Disp<0, BuildIf>::go(c.dst, b4);
     const Dune::Interface& c2 = inf2; const Dune::Interface& c3 = inf3;
     bool v = c2.interfaces().size() == c3.interfaces().size();
     for (auto p = c2.interfaces().begin(), q = c3.interfaces().begin(); v && p != c2.interfaces().end(); ++p, ++q)
       v = p->first == q->first && p->second.first == q->second.first && p->second.second == q->second.second;
+    cmb = cmb && same_comm(inf2.communicator(), ri.communicator());
     os << " EQ[" << x << "/" << y << "/" << z << "/" << w << "/" << v << "]";
+    os << " CM[" << same_comm(inf.communicator(), ri.communicator()) << "/" << cmb << "]";
   }
   {   // self tests of members no communication path reaches
     bool e = true, ii = true;
@@ -461,7 +484,7 @@ static std::string run_case(const Case& c, int rank, MPI_Comm comm)
     fill_sizes(c, r.S, r.capS, szS); fill_sizes(c, r.T, r.capT, szT);
     Dune::Interface pre;
     if (c.rebuild) {      // the communicator object has been built before, for another interface (all attributes)
-      pre.build(ri, Dune::AllSet<Attr>(), Dune::AllSet<Attr>());
+      pre.build(c.opre ? *rio : ri, Dune::AllSet<Attr>(), Dune::AllSet<Attr>());
       if (c.mode == 1) { VBV s0, t0; retag(s0, 0, rank, 0, szS); retag(t0, 0, rank, 1, szT); bc.build(s0, c.tc ? t0 : s0, pre); }
       else if (c.mode == 3) bc.build<SV2>(pre);
       else bc.build<SV>(pre);
@@ -497,7 +520,8 @@ static std::string run_case(const Case& c, int rank, MPI_Comm comm)
       if (c.pol) phases<SV, RecGS1<1> >(c, rank, *run, c.cop ? bc : second, os); else phases<SV, RecGS1<0> >(c, rank, *run, c.cop ? bc : second, os);
     }
   }
-  if (c.dt) { if (c.mode == 1) dt_phases<VBV>(c, rank, ri, os); else if (c.mode == 3) dt_phases<SV2>(c, rank, ri, os); else dt_phases<SV>(c, rank, ri, os); }
+  if (c.dt) { if (c.mode == 1) dt_phases<VBV>(c, rank, ri, rio, os); else if (c.mode == 3) dt_phases<SV2>(c, rank, ri, rio, os); else dt_phases<SV>(c, rank, ri, rio, os); }
+  delete rio;
   {   // remote indices out of sync with the index set: build() must refuse
     S.beginResize(); S.endResize();
     bool thrown = false;
@@ -540,7 +564,7 @@ int main(int argc, char** argv)
     std::string mine;
     if (ok && rank < c.P) {
       alarm(tmo);
-      try { mine = c.rev ? run_case(c, c.P - 1 - rank, subrev[c.P]) : run_case(c, rank, sub[c.P]); }
+      try { mine = c.rev ? run_case(c, c.P - 1 - rank, subrev[c.P], sub[c.P]) : run_case(c, rank, sub[c.P], subrev[c.P]); }
       catch (Dune::Exception& e) { mine = std::string("EXC[") + e.what() + "]"; }
       alarm(0);
     }
